@@ -26,7 +26,7 @@ var fieldProps = []struct {
 }{
 	{"Conversation.msgState", "C02 C03 C18"},
 	{"Conversation.ake", "C01 C06 C07 C08"},
-	{"ake.", "C01 C06 C07 C08"},
+	{"ake.", "C01 C06 C07 C08 C13"},
 	{"akeKeys.", "C01 C08"},
 	{"Conversation.keys", "C04 C05 C08 C09"},
 	{"keyManagementContext.", "C04 C05 C08 C09"},
@@ -47,12 +47,12 @@ var fieldProps = []struct {
 	{"Conversation.whitespaceState", "C16"},
 	{"Conversation.fragment", "C14"},
 	{"fragmentationContext.", "C14"},
-	{"Conversation.smp", "C11 C12"},
-	{"smp.", "C11 C12"},
-	{"smp1State.", "C11 C12"},
-	{"smp2State.", "C11 C12"},
-	{"smp3State.", "C11 C12"},
-	{"smp4State.", "C11 C12"},
+	{"Conversation.smp", "C11 C12 C13"},
+	{"smp.", "C11 C12 C13"},
+	{"smp1State.", "C11 C12 C13"},
+	{"smp2State.", "C11 C12 C13"},
+	{"smp3State.", "C11 C12 C13"},
+	{"smp4State.", "C11 C12 C13"},
 	{"Conversation.resend", "C03 C18 C19"},
 	{"resendContext.", "C03 C18 C19"},
 	{"Conversation.injections", "C06 C19"},
